@@ -21,6 +21,9 @@ CHILD = z3.Function("path_join", P, SG, P)  # os.path.join(dir, name)
 SEG_BLOBS = z3.Const("seg_blobs", SG)  # "blobs"
 KEYSEG = z3.Function("seg_of_key", KEY.sort(), SG)  # key
 METASEG = z3.Function("seg_of_key_meta", KEY.sort(), SG)  # key + ".meta"
+TMPSEG = z3.Function("seg_of_key_tmp", KEY.sort(), SG)  # key + ".tmp"
+METATMPSEG = z3.Function("seg_of_key_meta_tmp", KEY.sort(), SG)  # key + ".meta.tmp"
+LINKTMPSEG = z3.Function("seg_tmp_link", SG, SG)  # name + ".tmp_link"
 IS_ANC = z3.Function("is_ancestor_or_self", P, P, z3.BoolSort())  # IS_ANC(a, p): a is p or one of its ancestors
 ISABS = z3.Function("is_absolute", P, z3.BoolSort())
 DIRNAME = z3.Function("dirname", P, P)
@@ -40,6 +43,9 @@ def path_axioms():
         z3.ForAll([k, k2], z3.Implies(KEYSEG(k) == KEYSEG(k2), k == k2)),
         z3.ForAll([k, k2], z3.Implies(METASEG(k) == METASEG(k2), k == k2)),
         z3.ForAll([k, k2], KEYSEG(k) != METASEG(k2)),  # a signature never ends in ".meta" (A-H2)
+        z3.ForAll([k, k2], z3.And(TMPSEG(k) != KEYSEG(k2), TMPSEG(k) != METASEG(k2), METATMPSEG(k) != KEYSEG(k2), METATMPSEG(k) != METASEG(k2), TMPSEG(k) != METATMPSEG(k2))),
+        z3.ForAll([k, k2], z3.And(z3.Implies(TMPSEG(k) == TMPSEG(k2), k == k2), z3.Implies(METATMPSEG(k) == METATMPSEG(k2), k == k2))),
+        z3.ForAll([k], z3.And(TMPSEG(k) != SEG_BLOBS, METATMPSEG(k) != SEG_BLOBS)),
         z3.ForAll([k], z3.And(KEYSEG(k) != SEG_BLOBS, METASEG(k) != SEG_BLOBS)),
         z3.ForAll([a], IS_ANC(a, a)),
         z3.ForAll([a, s, b], IS_ANC(b, CHILD(a, s)) == z3.Or(b == CHILD(a, s), IS_ANC(b, a))),
@@ -106,10 +112,12 @@ class FsModels:
             "makedirs": Model(self.makedirs, "os.makedirs"),
             "remove": Model(self.remove, "os.remove"),
             "symlink": Model(self.symlink, "os.symlink"),
+            "replace": Model(self.replace, "os.replace"),
         }
         spec.classes["os.path"] = {
             "isdir": Model(lambda eng, a, k, n: Sym(self.fs(eng).isdir(fs_path(eng, a[1])), TBool), "os.path.isdir"),
             "exists": Model(lambda eng, a, k, n: Sym(self.fs(eng).exists(fs_path(eng, a[1])), TBool), "os.path.exists"),
+            "lexists": Model(lambda eng, a, k, n: Sym(self.fs(eng).lexists(fs_path(eng, a[1])), TBool), "os.path.lexists"),
             "join": Model(self.join, "os.path.join"),
             "realpath": Model(lambda eng, a, k, n: Sym(self.fs(eng).resolve(fs_path(eng, a[1])), FSP), "os.path.realpath"),
         }
@@ -172,6 +180,21 @@ class FsModels:
         fs.kind = z3.Store(fs.kind, link, z3.IntVal(LINK))
         fs.target = z3.Store(fs.target, link, tgt)
         self._effect(eng, "symlink", link)
+        return None
+
+    def replace(self, eng, args, kwargs, node):
+        """os.replace(src, dst): one atomic rename; dst, if present, is replaced"""
+        fs = self.fs(eng)
+        src, dst = fs_path(eng, args[1]), fs_path(eng, args[2])
+        eng.oblige("replace_source_exists", fs.lexists(src), kind="safety:FileNotFoundError", node=node)
+        eng.oblige("replace_target_is_not_a_directory", fs.kind[dst] != DIR, kind="safety:IsADirectoryError", node=node)
+        eng.oblige("replace_target_parent_is_dir", fs.isdir(DIRNAME(dst)), kind="safety:FileNotFoundError", node=node)
+        k, c, cm, t = fs.kind[src], fs.content[src], fs.complete[src], fs.target[src]
+        fs.kind = z3.Store(z3.Store(fs.kind, dst, k), src, z3.IntVal(ABSENT))
+        fs.content = z3.Store(fs.content, dst, c)
+        fs.complete = z3.Store(fs.complete, dst, cm)
+        fs.target = z3.Store(fs.target, dst, t)
+        self._effect(eng, "replace", dst)
         return None
 
     def open_(self, eng, args, kwargs, node):
